@@ -454,12 +454,23 @@ func runSweep(payload string) string {
 		// containers handed back must not be the stack's own storage
 		u, _ := r.s.Unmarshal()
 		before := deepDump(r.val())
-		for i := range u {
-			u[i] = "tampered"
-		}
-		outs = append(outs, "tamper D"+b01(before != deepDump(r.val())))
+		answer := Describe(any(u)).String()
+		tamperAll(u)
+		again, _ := r.s.Unmarshal()
+		// neither the Stack nor what it answers next time depends on what the caller does to the container it was handed
+		outs = append(outs, "tamper D"+b01(before != deepDump(r.val()))+" A"+b01(answer != Describe(any(again)).String()))
 	}
 	return strings.Join(outs, " ; ")
+}
+
+// tamperAll overwrites every position of the container, nested containers first
+func tamperAll(u []any) {
+	for i := range u {
+		if in, ok := u[i].([]any); ok {
+			tamperAll(in)
+		}
+		u[i] = "tampered"
+	}
 }
 
 // stripRO removes the read-only bit from the Opt field of the top-level dump
